@@ -410,6 +410,11 @@ def emit_driver(spec, idx, name):
     def cap_late(tag):
         return "B0 + %d" % (CA[tag] + 10)
 
+    def rd(var, lr):
+        """how the clause reads the captured local: a plain clause's copy is immutable (docs/reference.md), so std::move of it
+        is a const rvalue and ps::seen() takes its read-only overload; a copy the clause could modify would take the other"""
+        return var if lr else "ps::seen(std::move(%s))" % var
+
     late = []
     # WITH capture
     if s["w_cap"] == "rec":
@@ -464,17 +469,17 @@ def emit_driver(spec, idx, name):
         cl.append(".%sWITH(_%d == lw)" % ("LR_" if s["w_lr"] else "", s["w_cap_k"]))
     w = F.checks("W", s["w_lr"], False)
     if s["w_cap"] == "rec":
-        w.append("ps::eq(%s, lw, %s)" % (F.id("W.cap"), cap_late("w") if s["w_lr"] else cap_init("w")))
+        w.append("ps::eq(%s, %s, %s)" % (F.id("W.cap"), rd("lw", s["w_lr"]), cap_late("w") if s["w_lr"] else cap_init("w")))
     cl.append(".%sWITH(%s)" % ("LR_" if s["w_lr"] else "", _wrap(w, 16, " &&")))
     s1 = F.checks("S1", s["s1_lr"], False)
     if s["s1_cap"]:
-        s1.append("ps::eq(%s, ls1, %s)" % (F.id("S1.cap"), cap_late("s1") if s["s1_lr"] else cap_init("s1")))
+        s1.append("ps::eq(%s, %s, %s)" % (F.id("S1.cap"), rd("ls1", s["s1_lr"]), cap_late("s1") if s["s1_lr"] else cap_init("s1")))
     s1 += F.mutations()
     cl.append(".%sSIDE_EFFECT(%s)" % ("LR_" if s["s1_lr"] else "", _wrap(s1, 16, ";")))
     if s["s2"]:
         s2 = F.checks("S2", s["s2_lr"], True)
         if s["s2_cap"]:
-            s2.append("ps::eq(%s, ls2, %s)" % (F.id("S2.cap"), cap_late("s2") if s["s2_lr"] else cap_init("s2")))
+            s2.append("ps::eq(%s, %s, %s)" % (F.id("S2.cap"), rd("ls2", s["s2_lr"]), cap_late("s2") if s["s2_lr"] else cap_init("s2")))
         cl.append(".%sSIDE_EFFECT(%s)" % ("LR_" if s["s2_lr"] else "", _wrap(s2, 16, ";")))
     # terminal
     want_val = None
@@ -490,7 +495,7 @@ def emit_driver(spec, idx, name):
                 cl.append(".%sRETURN((%s,\n                _%d))" % ("LR_" if tlr else "", _wrap(t, 16, ","), k))
         else:
             if t_cap:
-                vexpr = "lt"
+                vexpr = rd("lt", tlr)
                 want_val = cap_late("t") if tlr else cap_init("t")
             elif s["t_val"] == "param" and s["t_val_k"] and not (s["t_val_k"] in F.will_steal):
                 k = s["t_val_k"]
